@@ -577,16 +577,26 @@ class t2listing(object):
             self.skipto('=====',0)
             self.skip_to_nonblank()
             tname = 'element'
-            nelt_tables = 0
-        else: tname = last_tablename
+            self._nelt_tables = 0
+            in_rows = False
+        else:
+            tname = last_tablename
+            in_rows = True # rows of the last table have been read
+        # number of element tables passed so far at this time (the
+        # caller only counts the ones it selected):
+        nelt_tables = self._nelt_tables
         while tname != tablename:
-            if tname == 'primary': keyword='_____'
-            else: keyword = '@@@@@'
-            self.skipto(keyword,0)
+            if tname == 'primary':
+                # primary table has no end marker: skip its header
+                # underline, unless already past it
+                if not in_rows: self.skipto('_____',0)
+            else: self.skipto('@@@@@',0)
+            in_rows = False
             tname = self.next_table_TOUGHplus()
             if tname == 'element':
                 nelt_tables += 1
                 tname += str(nelt_tables)
+        self._nelt_tables = nelt_tables
 
     def start_of_values(self, line, columns):
         """Returns start index of values in a table line.  Characters before
